@@ -579,10 +579,20 @@ func genRows(r *RNG, h *hist, o histOpts, ti int, ts uint32, announce bool) *hRo
 		}
 		return p
 	}
-	c := &hRows{kind: kind, table: ti, ts: ts, flags: r.Pick(0, 1), announce: announce}
+	c := &hRows{kind: kind, table: ti, ts: ts, flags: r.Pick(0, 1, 1, 2, 3, 4, 6, 7, 0x10, 0x1235, 0xffff), announce: announce} // STMT_END_F, NO_FOREIGN_KEY_CHECKS_F, RELAXED_UNIQUE_CHECKS_F, COMPLETE_ROWS_F and bits no server defines
 	c.pb, c.pa = mk(), mk()
 	if r.Chance(1, 4) {
 		c.extra = r.Bytes(r.Intn(6))
+	}
+	if announce && r.Chance(1, 4) {
+		// MySQL 8.0 / MariaDB 10.5 optional metadata after the NULL bitmap: a SIGNEDNESS field (type 1, length, one bit
+		// per numeric column) with arbitrary bits, sometimes followed by a DEFAULT_CHARSET field - the replica takes
+		// signedness from its table mapper, whatever these say
+		nb := (nc + 7) / 8
+		c.opt = append([]byte{1, byte(nb)}, r.Bytes(nb)...)
+		if r.Bool() {
+			c.opt = append(c.opt, 2, 1, 45)
+		}
 	}
 	if r.Chance(1, 5) {
 		c.opt = r.Bytes(r.Range(1, 12))
@@ -948,6 +958,10 @@ func showRowData(rs []*gobinlog.RowData) string {
 func showTx(t *gobinlog.Transaction) string {
 	var evs []string
 	for _, e := range t.Events {
+		if e == nil {
+			evs = append(evs, "NIL-EVENT")
+			continue
+		}
 		if e.Query.SQL != "" || (len(e.RowValues) == 0 && len(e.RowIdentifies) == 0 && e.Table.TableName == "") {
 			cs := "N"
 			if e.Query.Charset != nil {
@@ -1058,8 +1072,20 @@ func runParseOn(s *gobinlog.Streamer, m *tblMapper, packets [][]byte, file strin
 
 // withQueryErrors sets the error_code field of every QUERY event (post-header bytes 9..10) to a server error number.
 func withQueryErrors(h *hist, packets [][]byte) [][]byte {
-	if h == nil || !h.qerr {
+	if h == nil || !h.qerr || len(h.tables) == 0 {
 		return packets
+	}
+	// (the same histories also carry another server version string in their FORMAT_DESCRIPTION events - a MariaDB or an
+	// old / new MySQL master: the 50-byte field is informational, nothing the replica decodes may depend on it)
+	svs := []string{"5.5.68-MariaDB", "10.4.1-MariaDB-log", "8.0.36", "5.1.73-community", "5.6.0", "5.6.1", "4.1.1-alpha", "11.5.2-MariaDB", ""}
+	sv := svs[len(h.tables[0].name)%len(svs)]
+	for _, p := range packets {
+		if len(p) >= 19+2+50 && p[4] == 15 {
+			for k := 0; k < 50; k++ {
+				p[19+2+k] = 0
+			}
+			copy(p[19+2:19+2+50], sv)
+		}
 	}
 	codes := []uint16{1051, 1317, 1062, 1, 65535}
 	for i, p := range packets {
@@ -1109,6 +1135,27 @@ func jsonNullness(t *gobinlog.Transaction, out []byte) string {
 		}
 	}
 	return ""
+}
+
+// bulkHistory: a bulk load - ONE transaction of n rows events behind a single TABLE_MAP (LOAD DATA, a dump restore, a
+// large multi-row INSERT split by the master into 8 KiB events), between two small transactions. Nothing about a
+// transaction may depend on how many events it holds.
+func bulkHistory(r *RNG, cfg string, n int) *hist {
+	h := &hist{cfg: cfg, ext: map[string][]string{}}
+	h.tables = []*hTable{{id: 42, db: "d", name: "bulk", cols: []hCol{{typ: 3, nullable: true, name: "a"}, {typ: 15, md: 20, nullable: true, name: "s"}}}}
+	one := func(ts uint32, k int, ann bool) *hRows {
+		return &hRows{kind: "w", table: 0, ts: ts, flags: k % 2, announce: ann, pb: []bool{true, true}, pa: []bool{true, true},
+			rows: [][2][]string{{nil, {fmt.Sprintf("i:4:%d", k), "s:" + hx([]byte(fmt.Sprintf("r%d", k)))}}}}
+	}
+	ts := uint32(1600000000)
+	h.units = append(h.units, hUnit{kind: "tx", ts: ts, begin: "BEGIN", closer: "x1", changes: []hChange{{rows: one(ts, -1, true)}}})
+	big := hUnit{kind: "tx", ts: ts + 1, begin: "BEGIN", closer: "x2"}
+	for k := 0; k < n; k++ {
+		big.changes = append(big.changes, hChange{rows: one(ts+1, k, k == 0)})
+	}
+	h.units = append(h.units, big)
+	h.units = append(h.units, hUnit{kind: "tx", ts: ts + 2, begin: "BEGIN", closer: "x3", changes: []hChange{{rows: one(ts+2, -2, true)}}})
+	return h
 }
 
 func splitPackets(s string) [][]byte {
